@@ -100,7 +100,26 @@ SliceFailing(ev) ==
                              - 1000 * GroupArea2(Cat([b \in DOMAIN ev.bins |-> ev.bins[b]]))) <= BigTol(g.p, S) THEN {}
               ELSE {<<"big_scale_area">>})
 
+\* long skylines (hundreds of vertices; user integers, grid 1): the pieces respect the limit, their areas
+\* add up to the polygon's exactly, and every sampled unit-cell centre (doubled coordinates, never on
+\* an edge) inside the skyline lies in exactly one piece, every one outside in none
+Dbl(P) == [k \in DOMAIN P |-> <<2 * P[k][1], 2 * P[k][2]>>]
+StairFailing(ev) ==
+    LET g == ev.g
+        P2 == Dbl(g.p)
+        R2 == [i \in DOMAIN ev.pieces |-> Dbl(ev.pieces[i])]
+        qs == {<<2 * i + 1, 2 * j + 1>> : i \in {c \in 0..(g.n - 1) : c % 13 = 0}, j \in 0..8}
+        bad == {q \in qs : Cardinality({k \in DOMAIN R2 : Winding(R2[k], q) # 0})
+                              # (IF Winding(P2, q) # 0 THEN 1 ELSE 0)}
+    IN  (IF ev.lat /\ ev.err = 0 THEN {} ELSE {<<"lattice_or_error">>})
+        \cup (IF \A i \in DOMAIN ev.pieces : Len(ev.pieces[i]) <= g.limit THEN {} ELSE {<<"piece_exceeds_limit">>})
+        \cup (IF Len(ev.pieces) >= 2 THEN {} ELSE {<<"not_fractured">>})
+        \cup (IF GroupArea2(ev.pieces) = Area2(g.p) THEN {} ELSE {<<"piece_areas_do_not_add_up">>})
+        \cup (IF bad = {} THEN {} ELSE {<<"cover_count", CHOOSE q \in bad : TRUE>>})
+        \cup (IF ev.same_meta THEN {} ELSE {<<"tag_repetition_properties_not_copied">>})
+
 Check(ev) == CASE ev.e = "fracture" -> FractureFailing(ev)
+               [] ev.e = "stair" -> StairFailing(ev)
                [] ev.e = "slice" -> SliceFailing(ev)
                [] ev.e = "gdsfrac" -> GdsFracFailing(ev)
                [] ev.e = "gdspath" -> GdsPathFailing(ev)
